@@ -68,7 +68,13 @@ class JobControl:
         self._lock = threading.RLock()
 
     def clear_queue(self) -> None:
-        self._queue.clear()
+        # Under the lock: _run_next_job() tests the queue and takes the next
+        # job from it in two steps.
+        if self._acquire_lock():
+            try:
+                self._queue.clear()
+            finally:
+                self._release_lock()
 
     def add_job(self, job, name=None):
         return self._enqueue_job(job, self._queue.append, name)
